@@ -35,7 +35,7 @@ def enumerate_chain_ok(ctx, body, next_t):
 
 
 def run(ctx, out, tier):
-    vb = ctx.validate_body(NAME)
+    vb = ctx.validate_body(NAME, inline=True, sugar=True)
     if vb is None:
         out.inst("C08.anchor", 0, 1)
         return meta()
@@ -122,9 +122,20 @@ def run(ctx, out, tier):
                 out.viol("C08.polarity", "C08.polarity|guard", ctx.where(vb, t["span"]), "the line-pattern violation push is not guarded by `!re.is_match(trimmed)`")
         out.inst("C08.polarity", n_pol, 1, ["push iff !is_match(trimmed)"])
         # a matching line continues with the next line
-        arms = util.switch_arms(vb, cfg.succ[mbi][0]) if cfg.succ[mbi] and vb.blocks[cfg.succ[mbi][0]]["term"]["k"] == "switch" else None
-        if arms is not None:
-            match_arm = arms["otherwise"] if 0 in arms else arms.get(1)
+        arms = None
+        match_arm = None
+        for bj, tt in vb.terms():
+            if tt["k"] != "switch" or bj not in region:
+                continue
+            e3 = util.switch_operand_expr(ctx, vb, bj)
+            flipped = False
+            while e3[0] == "un" and e3[1] == "Not":
+                e3 = e3[2]
+                flipped = not flipped
+            if e3[0] == "call" and len(e3) > 3 and e3[3] == mbi:
+                arms = util.switch_arms(vb, bj)
+                match_arm = (arms["otherwise"] if 0 in arms else arms.get(1)) if not flipped else arms.get(0)
+        if arms is not None and match_arm is not None:
             okc, r = util.continue_only(cfg, match_arm, region, header)
             if okc:
                 n_blank += 1
